@@ -156,6 +156,18 @@ class Run:
                 cex = {"found": False, "note": "exploration failed to run: %r" % (e,)}
             explored.add(name)
             self.extra.setdefault("bounded_exploration_not_counted", []).append({"name": name, "found": bool(cex and cex.get("found")), "note": (cex or {}).get("note") or (cex or {}).get("verdict")})
+            if cex and cex.get("findings") is not None:
+                # several independent findings, each with its own key: listed ones are printed as KNOWN-FINDING, any other is a violation
+                for fd in cex["findings"]:
+                    key = "%s|replay-on-real-code|%s" % (name, fd["key"])
+                    rec = {"key": key, "backend": "replay (bounded run-time-checked contract on the real code)",
+                           "detail": {"msg": fd.get("verdict", "")}, "cex": dict(fd, found=True)}
+                    if key in known_keys:
+                        known_hit.append(rec)
+                    else:
+                        violations.append(rec)
+                        self.n_obl += 1
+                continue
             if cex and cex.get("found"):
                 violations.append({"key": "%s|replay-on-real-code|%s" % (name, str(cex.get("verdict", ""))[:80]), "backend": "replay (bounded search on the real code)",
                                    "detail": {"msg": "bounded exploration of the real code found a failing input"}, "cex": cex})
